@@ -61,6 +61,11 @@ func (lnd *LndClient) ConnectionStatus() error {
 }
 
 func (lnd *LndClient) CreateInvoice(amount uint64) (Invoice, error) {
+	// the amount is sent as an int64 and lnd converts it to msat. Do not let it wrap around
+	if amount > math.MaxInt64/1000 {
+		return Invoice{}, errors.New("amount is too large")
+	}
+
 	invoiceRequest := lnrpc.Invoice{
 		Value:  int64(amount),
 		Expiry: InvoiceExpiryTime,
